@@ -51,7 +51,10 @@ def canon(lines):
         if l.startswith("E fail "):
             msg = l[7:]
             if msg.startswith("test closure did not exercise any concurrency"):
-                skip_s = True      # PCT's diagnostic is raised by new_execution, outside any execution
+                # PCT's diagnostic is raised by new_execution, outside any execution: the schedule line that follows
+                # is the previous execution's, printed again
+                skip_s = True
+                out.append("E panic test closure did not exercise any concurrency")
                 continue
             l = canon_fail(msg)
         if skip_s and l.startswith("S "):
@@ -134,6 +137,10 @@ def compare(impl, model, names):
     for n in names:
         a = canon(impl.get(n, ["<missing>"]))
         b = canon(model.get(n, ["<missing>"]))
+        # (trace mode follows the recorded decisions and has no scheduler of its own to raise PCT's diagnostic)
+        diag = "E panic test closure did not exercise any concurrency"
+        if a and a[-1] == diag and (not b or b[-1] != diag):
+            a = a[:-1]
         if a != b:
             i = 0
             while i < min(len(a), len(b)) and a[i] == b[i]:
